@@ -71,7 +71,7 @@ func genC12(t *rapid.T) c12Case {
 			r.User = rapid.SampledFrom([]string{"4", "7", "2@example.com", "9"}).Draw(t, "numUser")
 		}
 		r.SubDiffer = rapid.IntRange(0, 4).Draw(t, "subDiffers") == 0
-		r.Host = rapid.SampledFrom([]string{"absent", "listed:0", "listed:1", "listed-othercase:0", "listed-othercase:1", "unlisted", "qt-valid:0", "qt-valid:1", "qt-unlisted", "qt-forged", "qt-expired", "qt-wrong-issuer", "qt-no-issuer", "qt-wrong-key", "junk"}).Draw(t, "hostParam")
+		r.Host = rapid.SampledFrom([]string{"absent", "listed:0", "listed:1", "listed-othercase:0", "listed-othercase:1", "unlisted", "qt-valid:0", "qt-valid:1", "qt-unlisted", "qt-forged", "qt-expired", "qt-wrong-issuer", "qt-no-issuer", "qt-wrong-key", "junk", "line-break-then-gateway", "line-break-then-address"}).Draw(t, "hostParam")
 		r.Login.IP = rapid.SampledFrom(c04IPs).Draw(t, "loginIP")
 		r.From.IP = r.Login.IP
 		if rapid.IntRange(0, 2).Draw(t, "moved") == 0 {
@@ -169,9 +169,15 @@ func runC12(c c12Case) *Violation {
 			hostParam = queryToken(listed(0), "", time.Now().Add(3*time.Minute), testQueryKey)
 		case r.Host == "qt-wrong-key":
 			hostParam = queryToken(listed(0), "portal", time.Now().Add(3*time.Minute), "another-query-signing-key-32-ch!")
+		case r.Host == "line-break-then-gateway":
+			// a link somebody else prepared: the value goes on after a line break with a setting of its own
+			hostParam = listed(0) + "\r\ngatewayhostname:s:gw.elsewhere.example.net"
+		case r.Host == "line-break-then-address":
+			hostParam = listed(0) + "\nfull address:s:" + w.addr("D")
 		default:
 			hostParam = "junk host"
 		}
+		brokenValue := strings.ContainsAny(hostParam, "\r\n")
 		// reference selection policy
 		refuse := false
 		anyOf := []string(nil)
@@ -217,6 +223,9 @@ func runC12(c c12Case) *Violation {
 				return viol("c12/not-redirected", "a session that did not complete the login must be redirected to the identity provider (got Location %q): %s", loc, desc)
 			}
 			continue
+		}
+		if brokenValue && !refuse && resp.Code == http.StatusBadRequest && !hasToken {
+			continue // a value that cannot be written on one line may be refused; if a file is made, it has to be right
 		}
 		if refuse {
 			if resp.Code != http.StatusBadRequest || hasToken {
